@@ -951,27 +951,28 @@ package keeper
 
 // rewardOf / rewardsOf / balanceOf read the pending rewards through the x/distribution gRPC querier, which WRITES
 // (IncrementValidatorPeriod). Clause C12.ro_distribution_unchanged is the part of "a read-only method writes nothing" that
-// concerns x/distribution: the x/distribution state of the call's own layer, and of every store layer that existed when the
-// call started, is unchanged (the only entries that may change belong to a layer created during the call and never
-// written back). It FAILS when the querier is run on the live context (finding F-cpc-2, docs/findings-cpc.md); it holds
+// concerns x/distribution: the x/distribution state of the call's own layer, and of every store layer that is not deeper
+// than it (the layer itself, all its ancestors — i.e. every layer whose content can still be committed — and their
+// siblings), is unchanged: the only entries that may change belong to a child layer created during the call and never
+// written back. It FAILS when the querier is run on the live context (finding F-cpc-2, docs/findings-cpc.md); it holds
 // when the querier runs on a cache context whose write function is dropped (fix candidate, docs/findings-cpc2.md).
 //@ func (e stakingCustomPrecompiledContractRoRewardOf) Execute(caller corevm.ContractRef, contractAddr common.Address, input []byte, env cpcExecutorEnv) (ret []byte, err error)
 //@   requires e.contract != nil
-//@   modifies distVersion, layerLive
+//@   modifies distVersion
 //@   ensures[C12.ro_world_unchanged] (bankBal == old(bankBal) && bankSupply == old(bankSupply) && authVersion == old(authVersion) && evlog == old(evlog) && kvHas == old(kvHas) && kvVal == old(kvVal) && acctSeq == old(acctSeq) && acctExists == old(acctExists) && stakingVersion == old(stakingVersion) && sdbLogCount == old(sdbLogCount) && sdbLogAddr == old(sdbLogAddr) && sdbLogNTopics == old(sdbLogNTopics) && sdbLogT0 == old(sdbLogT0) && sdbLogT1 == old(sdbLogT1) && sdbLogT2 == old(sdbLogT2) && sdbLogT3 == old(sdbLogT3) && sdbLogData == old(sdbLogData))
-//@   ensures[C12.ro_distribution_unchanged] distVersion[layer(env.ctx)] == old(distVersion[layer(env.ctx)]) && (forall l int :: old(layerLive[l]) ==> distVersion[l] == old(distVersion[l]))
+//@   ensures[C12.ro_distribution_unchanged] distVersion[layer(env.ctx)] == old(distVersion[layer(env.ctx)]) && (forall l int :: lyrDepth(l) <= lyrDepth(layer(env.ctx)) ==> distVersion[l] == old(distVersion[l]))
 
 //@ func (e stakingCustomPrecompiledContractRoRewardsOf) Execute(caller corevm.ContractRef, contractAddr common.Address, input []byte, env cpcExecutorEnv) (ret []byte, err error)
 //@   requires e.contract != nil
-//@   modifies distVersion, layerLive
+//@   modifies distVersion
 //@   ensures[C12.ro_world_unchanged] (bankBal == old(bankBal) && bankSupply == old(bankSupply) && authVersion == old(authVersion) && evlog == old(evlog) && kvHas == old(kvHas) && kvVal == old(kvVal) && acctSeq == old(acctSeq) && acctExists == old(acctExists) && stakingVersion == old(stakingVersion) && sdbLogCount == old(sdbLogCount) && sdbLogAddr == old(sdbLogAddr) && sdbLogNTopics == old(sdbLogNTopics) && sdbLogT0 == old(sdbLogT0) && sdbLogT1 == old(sdbLogT1) && sdbLogT2 == old(sdbLogT2) && sdbLogT3 == old(sdbLogT3) && sdbLogData == old(sdbLogData))
-//@   ensures[C12.ro_distribution_unchanged] distVersion[layer(env.ctx)] == old(distVersion[layer(env.ctx)]) && (forall l int :: old(layerLive[l]) ==> distVersion[l] == old(distVersion[l]))
+//@   ensures[C12.ro_distribution_unchanged] distVersion[layer(env.ctx)] == old(distVersion[layer(env.ctx)]) && (forall l int :: lyrDepth(l) <= lyrDepth(layer(env.ctx)) ==> distVersion[l] == old(distVersion[l]))
 
 //@ func (e stakingCustomPrecompiledContractRoBalanceOf) Execute(caller corevm.ContractRef, contractAddr common.Address, input []byte, env cpcExecutorEnv) (ret []byte, err error)
 //@   requires e.rewardsOf.contract != nil && e.rewardsOf.contract.keeper.bankKeeper != nil
-//@   modifies distVersion, layerLive
+//@   modifies distVersion
 //@   ensures[C12.ro_world_unchanged] (bankBal == old(bankBal) && bankSupply == old(bankSupply) && authVersion == old(authVersion) && evlog == old(evlog) && kvHas == old(kvHas) && kvVal == old(kvVal) && acctSeq == old(acctSeq) && acctExists == old(acctExists) && stakingVersion == old(stakingVersion) && sdbLogCount == old(sdbLogCount) && sdbLogAddr == old(sdbLogAddr) && sdbLogNTopics == old(sdbLogNTopics) && sdbLogT0 == old(sdbLogT0) && sdbLogT1 == old(sdbLogT1) && sdbLogT2 == old(sdbLogT2) && sdbLogT3 == old(sdbLogT3) && sdbLogData == old(sdbLogData))
-//@   ensures[C12.ro_distribution_unchanged] distVersion[layer(env.ctx)] == old(distVersion[layer(env.ctx)]) && (forall l int :: old(layerLive[l]) ==> distVersion[l] == old(distVersion[l]))
+//@   ensures[C12.ro_distribution_unchanged] distVersion[layer(env.ctx)] == old(distVersion[layer(env.ctx)]) && (forall l int :: lyrDepth(l) <= lyrDepth(layer(env.ctx)) ==> distVersion[l] == old(distVersion[l]))
 
 // the remaining read-only staking methods and the ten bech32 methods (pure computations)
 //@ func (e stakingCustomPrecompiledContractRoName) Execute(caller corevm.ContractRef, contractAddr common.Address, input []byte, env cpcExecutorEnv) (ret []byte, err error)
@@ -1064,7 +1065,10 @@ package keeper
 //@   requires k.storeKey != nil && k.cdc != nil
 //@   modifies nothing
 //@   ensures[C17.one_object_per_record] len(contracts) == kvSeqLen(kvHas[kvId(layer(ctx), payload(k.storeKey))], b1(2))
-//@   ensures[C17.object_of_known_type] forall i int :: (0 <= i && i < len(contracts)) ==> (contracts[i] != nil && (typeof(contracts[i]) == type(*erc20CustomPrecompiledContract) || typeof(contracts[i]) == type(*stakingCustomPrecompiledContract) || typeof(contracts[i]) == type(*bech32CustomPrecompiledContract)))
+//@   ensures[C17.records_of_known_type] forall i int :: (0 <= i && i < len(contracts)) ==> (1 <= pbMetaType(kvVal[kvId(layer(ctx), payload(k.storeKey))][kvSeqKey(kvHas[kvId(layer(ctx), payload(k.storeKey))], b1(2), i)]) && pbMetaType(kvVal[kvId(layer(ctx), payload(k.storeKey))][kvSeqKey(kvHas[kvId(layer(ctx), payload(k.storeKey))], b1(2), i)]) <= 3)
+//@   ensures[C17.object_type_of_record_erc20] forall i int :: (0 <= i && i < len(contracts)) ==> (pbMetaType(kvVal[kvId(layer(ctx), payload(k.storeKey))][kvSeqKey(kvHas[kvId(layer(ctx), payload(k.storeKey))], b1(2), i)]) == 1 ==> typeof(contracts[i]) == type(*erc20CustomPrecompiledContract))
+//@   ensures[C17.object_type_of_record_staking] forall i int :: (0 <= i && i < len(contracts)) ==> (pbMetaType(kvVal[kvId(layer(ctx), payload(k.storeKey))][kvSeqKey(kvHas[kvId(layer(ctx), payload(k.storeKey))], b1(2), i)]) == 2 ==> typeof(contracts[i]) == type(*stakingCustomPrecompiledContract))
+//@   ensures[C17.object_type_of_record_bech32] forall i int :: (0 <= i && i < len(contracts)) ==> (pbMetaType(kvVal[kvId(layer(ctx), payload(k.storeKey))][kvSeqKey(kvHas[kvId(layer(ctx), payload(k.storeKey))], b1(2), i)]) == 3 ==> typeof(contracts[i]) == type(*bech32CustomPrecompiledContract))
 //@   ensures[C17.object_is_record_erc20] forall i int :: (0 <= i && i < len(contracts)) ==> (typeof(contracts[i]) == type(*erc20CustomPrecompiledContract) ==> (unbox(contracts[i], type(*erc20CustomPrecompiledContract)) != nil && (unbox(contracts[i], type(*erc20CustomPrecompiledContract)).metadata.CustomPrecompiledType == pbMetaType(kvVal[kvId(layer(ctx), payload(k.storeKey))][kvSeqKey(kvHas[kvId(layer(ctx), payload(k.storeKey))], b1(2), i)]) && bytes(unbox(contracts[i], type(*erc20CustomPrecompiledContract)).metadata.Address) == pbMetaAddr(kvVal[kvId(layer(ctx), payload(k.storeKey))][kvSeqKey(kvHas[kvId(layer(ctx), payload(k.storeKey))], b1(2), i)]) && unbox(contracts[i], type(*erc20CustomPrecompiledContract)).metadata.Name == pbMetaName(kvVal[kvId(layer(ctx), payload(k.storeKey))][kvSeqKey(kvHas[kvId(layer(ctx), payload(k.storeKey))], b1(2), i)]) && unbox(contracts[i], type(*erc20CustomPrecompiledContract)).metadata.TypedMeta == pbMetaTyped(kvVal[kvId(layer(ctx), payload(k.storeKey))][kvSeqKey(kvHas[kvId(layer(ctx), payload(k.storeKey))], b1(2), i)]) && unbox(contracts[i], type(*erc20CustomPrecompiledContract)).metadata.Disabled == pbMetaDisabled(kvVal[kvId(layer(ctx), payload(k.storeKey))][kvSeqKey(kvHas[kvId(layer(ctx), payload(k.storeKey))], b1(2), i)]))))
 //@   ensures[C17.object_executors_erc20] forall i int :: (0 <= i && i < len(contracts)) ==> (typeof(contracts[i]) == type(*erc20CustomPrecompiledContract) ==> (len(unbox(contracts[i], type(*erc20CustomPrecompiledContract)).executors) > 0 && (forall j int :: (0 <= j && j < len(unbox(contracts[i], type(*erc20CustomPrecompiledContract)).executors)) ==> unbox(contracts[i], type(*erc20CustomPrecompiledContract)).executors[j] != nil)))
 //@   ensures[C17.object_is_record_staking] forall i int :: (0 <= i && i < len(contracts)) ==> (typeof(contracts[i]) == type(*stakingCustomPrecompiledContract) ==> (unbox(contracts[i], type(*stakingCustomPrecompiledContract)) != nil && (unbox(contracts[i], type(*stakingCustomPrecompiledContract)).metadata.CustomPrecompiledType == pbMetaType(kvVal[kvId(layer(ctx), payload(k.storeKey))][kvSeqKey(kvHas[kvId(layer(ctx), payload(k.storeKey))], b1(2), i)]) && bytes(unbox(contracts[i], type(*stakingCustomPrecompiledContract)).metadata.Address) == pbMetaAddr(kvVal[kvId(layer(ctx), payload(k.storeKey))][kvSeqKey(kvHas[kvId(layer(ctx), payload(k.storeKey))], b1(2), i)]) && unbox(contracts[i], type(*stakingCustomPrecompiledContract)).metadata.Name == pbMetaName(kvVal[kvId(layer(ctx), payload(k.storeKey))][kvSeqKey(kvHas[kvId(layer(ctx), payload(k.storeKey))], b1(2), i)]) && unbox(contracts[i], type(*stakingCustomPrecompiledContract)).metadata.TypedMeta == pbMetaTyped(kvVal[kvId(layer(ctx), payload(k.storeKey))][kvSeqKey(kvHas[kvId(layer(ctx), payload(k.storeKey))], b1(2), i)]) && unbox(contracts[i], type(*stakingCustomPrecompiledContract)).metadata.Disabled == pbMetaDisabled(kvVal[kvId(layer(ctx), payload(k.storeKey))][kvSeqKey(kvHas[kvId(layer(ctx), payload(k.storeKey))], b1(2), i)]))))
@@ -1074,7 +1078,11 @@ package keeper
 //@   ensures cap(contracts) == 0 || fresh(base(contracts))
 //@ loop 1
 //@   fresh_writes
-//@   invariant -1 <= rangeindex && rangeindex < len(metas) && len(contracts) == rangeindex + 1 && (cap(contracts) == 0 || fresh(base(contracts))) && (forall i int :: (0 <= i && i <= rangeindex) ==> (contracts[i] != nil && (typeof(contracts[i]) == type(*erc20CustomPrecompiledContract) || typeof(contracts[i]) == type(*stakingCustomPrecompiledContract) || typeof(contracts[i]) == type(*bech32CustomPrecompiledContract))))
+//@   invariant -1 <= rangeindex && rangeindex < len(metas) && len(contracts) == rangeindex + 1 && (cap(contracts) == 0 || fresh(base(contracts)))
+//@   invariant forall i int :: (0 <= i && i <= rangeindex) ==> (1 <= pbMetaType(kvVal[kvId(layer(ctx), payload(k.storeKey))][kvSeqKey(kvHas[kvId(layer(ctx), payload(k.storeKey))], b1(2), i)]) && pbMetaType(kvVal[kvId(layer(ctx), payload(k.storeKey))][kvSeqKey(kvHas[kvId(layer(ctx), payload(k.storeKey))], b1(2), i)]) <= 3)
+//@   invariant forall i int :: (0 <= i && i <= rangeindex) ==> (pbMetaType(kvVal[kvId(layer(ctx), payload(k.storeKey))][kvSeqKey(kvHas[kvId(layer(ctx), payload(k.storeKey))], b1(2), i)]) == 1 ==> typeof(contracts[i]) == type(*erc20CustomPrecompiledContract))
+//@   invariant forall i int :: (0 <= i && i <= rangeindex) ==> (pbMetaType(kvVal[kvId(layer(ctx), payload(k.storeKey))][kvSeqKey(kvHas[kvId(layer(ctx), payload(k.storeKey))], b1(2), i)]) == 2 ==> typeof(contracts[i]) == type(*stakingCustomPrecompiledContract))
+//@   invariant forall i int :: (0 <= i && i <= rangeindex) ==> (pbMetaType(kvVal[kvId(layer(ctx), payload(k.storeKey))][kvSeqKey(kvHas[kvId(layer(ctx), payload(k.storeKey))], b1(2), i)]) == 3 ==> typeof(contracts[i]) == type(*bech32CustomPrecompiledContract))
 //@   invariant forall i int :: (0 <= i && i <= rangeindex) ==> (typeof(contracts[i]) == type(*erc20CustomPrecompiledContract) ==> (unbox(contracts[i], type(*erc20CustomPrecompiledContract)) != nil && (unbox(contracts[i], type(*erc20CustomPrecompiledContract)).metadata.CustomPrecompiledType == pbMetaType(kvVal[kvId(layer(ctx), payload(k.storeKey))][kvSeqKey(kvHas[kvId(layer(ctx), payload(k.storeKey))], b1(2), i)]) && bytes(unbox(contracts[i], type(*erc20CustomPrecompiledContract)).metadata.Address) == pbMetaAddr(kvVal[kvId(layer(ctx), payload(k.storeKey))][kvSeqKey(kvHas[kvId(layer(ctx), payload(k.storeKey))], b1(2), i)]) && unbox(contracts[i], type(*erc20CustomPrecompiledContract)).metadata.Name == pbMetaName(kvVal[kvId(layer(ctx), payload(k.storeKey))][kvSeqKey(kvHas[kvId(layer(ctx), payload(k.storeKey))], b1(2), i)]) && unbox(contracts[i], type(*erc20CustomPrecompiledContract)).metadata.TypedMeta == pbMetaTyped(kvVal[kvId(layer(ctx), payload(k.storeKey))][kvSeqKey(kvHas[kvId(layer(ctx), payload(k.storeKey))], b1(2), i)]) && unbox(contracts[i], type(*erc20CustomPrecompiledContract)).metadata.Disabled == pbMetaDisabled(kvVal[kvId(layer(ctx), payload(k.storeKey))][kvSeqKey(kvHas[kvId(layer(ctx), payload(k.storeKey))], b1(2), i)]))))
 //@   invariant forall i int :: (0 <= i && i <= rangeindex) ==> (typeof(contracts[i]) == type(*erc20CustomPrecompiledContract) ==> (len(unbox(contracts[i], type(*erc20CustomPrecompiledContract)).executors) > 0 && (forall j int :: (0 <= j && j < len(unbox(contracts[i], type(*erc20CustomPrecompiledContract)).executors)) ==> unbox(contracts[i], type(*erc20CustomPrecompiledContract)).executors[j] != nil)))
 //@   invariant forall i int :: (0 <= i && i <= rangeindex) ==> (typeof(contracts[i]) == type(*stakingCustomPrecompiledContract) ==> (unbox(contracts[i], type(*stakingCustomPrecompiledContract)) != nil && (unbox(contracts[i], type(*stakingCustomPrecompiledContract)).metadata.CustomPrecompiledType == pbMetaType(kvVal[kvId(layer(ctx), payload(k.storeKey))][kvSeqKey(kvHas[kvId(layer(ctx), payload(k.storeKey))], b1(2), i)]) && bytes(unbox(contracts[i], type(*stakingCustomPrecompiledContract)).metadata.Address) == pbMetaAddr(kvVal[kvId(layer(ctx), payload(k.storeKey))][kvSeqKey(kvHas[kvId(layer(ctx), payload(k.storeKey))], b1(2), i)]) && unbox(contracts[i], type(*stakingCustomPrecompiledContract)).metadata.Name == pbMetaName(kvVal[kvId(layer(ctx), payload(k.storeKey))][kvSeqKey(kvHas[kvId(layer(ctx), payload(k.storeKey))], b1(2), i)]) && unbox(contracts[i], type(*stakingCustomPrecompiledContract)).metadata.TypedMeta == pbMetaTyped(kvVal[kvId(layer(ctx), payload(k.storeKey))][kvSeqKey(kvHas[kvId(layer(ctx), payload(k.storeKey))], b1(2), i)]) && unbox(contracts[i], type(*stakingCustomPrecompiledContract)).metadata.Disabled == pbMetaDisabled(kvVal[kvId(layer(ctx), payload(k.storeKey))][kvSeqKey(kvHas[kvId(layer(ctx), payload(k.storeKey))], b1(2), i)]))))
